@@ -125,7 +125,7 @@ class Check(CheckBase):
               "thorough": {"integers": "every numeric argument symbolic in [-2^31, 2^31]", "pause": "n <= 48000 ms (up to 64 chunks)",
                            "optional arguments": "each absent (None) and present (symbolic)"}}
     outside = ["non-integer (float/str) arguments: C-level formatting is not modelled", "the correctness of the EBB command reference itself",
-               "motors_enable of the EBB3 layer (covered with the board model in C16)", "reply-dependent behaviour (C05, C07)"]
+               "the exact command sequence of EBBMotionWrap.motors_enable (state dependent; what it must achieve is checked through C16's board model, reused here)", "reply-dependent behaviour (C05, C07)"]
     stubs = ["str.format / f-string of a symbolic integer with empty spec: decimal rendering, represented by a token",
              "fake port answering every request like a conforming board (legacy: data+OK; EBB3: echo of the name)"]
     assumptions = ["expected texts transcribed from the helper docstrings / the EBB command reference they cite"]
@@ -151,6 +151,12 @@ class Check(CheckBase):
                                "present": present})
                 cs.append({"label": "%s/%s/noport" % (layer, key), "layer": layer, "key": key, "present": list(sp["opt"]),
                            "noport": True})
+        # EBBMotionWrap.motors_enable issues a state-dependent command sequence; what it must achieve on the board is
+        # specified in C16, whose harness (symbolic board, earlier requests, power cycle) is reused here
+        from checks import c16
+        for c in c16.Check().cases(tier):
+            if c["label"].startswith("motors_enable"):
+                cs.append(dict(c, label="ebb3/" + c["label"], delegate_c16=c["label"]))
         return cs
 
     def config(self, tier, case):
@@ -188,6 +194,10 @@ class Check(CheckBase):
         return port
 
     def harness(self, run, case):
+        if case.get("delegate_c16"):
+            from checks import c16
+            run.reach("sent")
+            return c16.Check().harness(run, dict(case, label=case["delegate_c16"]))
         sp = SPEC[case["key"]]
         tier_pause = 6000 if _TIER[0] == "quick" else 48000
         args, zargs = {}, {}
@@ -258,8 +268,11 @@ class Check(CheckBase):
     # ---------------------------------------------------------------------------------------------
     def replay(self, cex):
         import importlib
+        if cex["case"].startswith("ebb3/motors_enable"):
+            from checks import c16
+            return c16.Check().replay(dict(cex, case=cex["case"][len("ebb3/"):]))
         layer, key, _ = cex["case"].split("/")
-        case = next(c for c in self.cases("quick") if c["label"] == cex["case"])
+        case = next(c for c in self.cases("quick") + self.cases("thorough") if c["label"] == cex["case"])
         sp = SPEC[key]
         args = {k: int(v) for k, v in cex["inputs"].items()}
         name = sp[layer]
@@ -316,7 +329,7 @@ class Check(CheckBase):
         rnd = random.Random(seed)
         n = 0
         for case in self.cases("quick"):
-            if case.get("noport") or case["key"] == "pause":
+            if case.get("delegate_c16") or case.get("noport") or case["key"] == "pause":
                 continue
             sp = SPEC[case["key"]]
             vals = {k: rnd.choice([0, 1, -1, 5, 7, rnd.randint(-R, R)]) for k in sp["args"] + case["present"]}
